@@ -111,6 +111,15 @@ def andNot (a b : Nat) : Nat := a ^^^ (a &&& b)
 
 def isDirType (t : Bytes) : Bool := t == T.dir || t == T.implicitDir
 
+/-- the mtime WithFileInfoDefaults settles on: the explicit one, else the package mtime, else – when
+    the source was stat-ed – its on-disk mtime, else the package mtime again -/
+def pickMtime (explicit pkgMtime : Int) (statMtime : Option Int) : Int :=
+  let mt0 := if isZeroT explicit then pkgMtime else explicit
+  let mt1 := match statMtime with
+    | some s => if isZeroT mt0 then s else mt0
+    | none => mt0
+  if isZeroT mt1 then pkgMtime else mt1
+
 /-- Content.WithFileInfoDefaults (value projection) -/
 def withDefaults (O : Oracle) (umask : Nat) (mtime : Int) (c : Content) : Content :=
   let ty := if c.type = [] then T.file else c.type
@@ -118,20 +127,18 @@ def withDefaults (O : Oracle) (umask : Nat) (mtime : Int) (c : Content) : Conten
   let owner := if fi.owner = [] then b!"root" else fi.owner
   let group := if fi.group = [] then b!"root" else fi.group
   let mode := if isDirType ty && fi.mode == 0 then 0o755 else fi.mode
-  let mt := if isZeroT fi.mtime then mtime else fi.mtime
-  let complete := !isZeroT mt && mode != 0 && (fi.size != 0 || isDirType ty)
-  let (mt, mode, size) :=
-    if c.src ≠ [] && !complete then
-      match O.stat c.src with
-      | some st =>
-        ((if isZeroT mt then st.mtime else mt),
-         (if mode == 0 then andNot st.mode umask else mode),
-         st.size)
-      | none => (mt, mode, fi.size)
-    else (mt, mode, fi.size)
-  let mt := if isZeroT mt then mtime else mt
+  let mt0 := if isZeroT fi.mtime then mtime else fi.mtime
+  let complete := !isZeroT mt0 && mode != 0 && (fi.size != 0 || isDirType ty)
+  -- only stat the source when more information is needed
+  let st : Option Stat := if c.src ≠ [] && !complete then O.stat c.src else none
+  let mode := match st with
+    | some s => if mode == 0 then andNot s.mode umask else mode
+    | none => mode
+  let size := match st with
+    | some s => s.size
+    | none => fi.size
   { src := c.src, dst := c.dst, type := ty, packager := c.packager,
-    info := some { owner, group, mode, mtime := mt, size } }
+    info := some { owner, group, mode, mtime := pickMtime fi.mtime mtime (st.map (·.mtime)), size } }
 
 abbrev CMap := List (Bytes × Content)
 
